@@ -344,8 +344,11 @@ func c09NonDir(c *ev.Ctx) {
 		if !c.Mine(i) {
 			continue
 		}
-		for _, mode := range []string{"walk", "walkgetattr", "attach", "two-step"} {
+		for _, mode := range []string{"walk", "walkgetattr", "attach", "two-step", "created", "created-clone"} {
 			for _, wga := range []bool{false, true} {
+				if strings.HasPrefix(mode, "created") && len(pth) < 2 {
+					continue
+				}
 				fs := fixture()
 				fs.NoWalkGetAttr = wga
 				srv := p9.NewServer(fs)
@@ -368,6 +371,31 @@ func c09NonDir(c *ev.Ctx) {
 					res = s.walk(0, 5, pth[0])
 					if res.Errno() == 0 && len(pth) > 1 {
 						res = s.walk(5, 6, pth[1:]...)
+					}
+				case "created", "created-clone":
+					// the walk starts at a fid that Tlcreate bound to a regular
+					// file it has just created (or at a clone of that fid): what
+					// the backend reported for it is a file, whatever the fid
+					// denoted before
+					res = s.walk(0, 4)
+					if res.Errno() == 0 {
+						res = s.create(4, "new-"+pth[0], 2, 0644)
+					}
+					from := uint64(4)
+					if res.Errno() == 0 && mode == "created-clone" {
+						res = s.walk(4, 7)
+						from = 7
+					}
+					if res.Errno() != 0 {
+						c.Inconclusive("C09 nondir: setup of the created file failed")
+						s.P.Close()
+						continue
+					}
+					fs.NameViolations()
+					if wga {
+						res = s.walkgetattr(from, 6, pth[1:]...)
+					} else {
+						res = s.walk(from, 6, pth[1:]...)
 					}
 				}
 				c.Case(fmt.Sprintf("nondir:%s:%s:%v", strings.Join(pth, "/"), mode, wga), true)
